@@ -93,18 +93,38 @@ fn bools_to_input(b: &[bool]) -> IdpfInput {
         OFFSETS.with(|t| t.borrow_mut().2 += 1);
         return IdpfInput::from(bv[o as usize..].to_bitvec());
     }
-    let off = OFFSETS.with(|o| {
+    let (off, residue) = OFFSETS.with(|o| {
         let mut o = o.borrow_mut();
         if o.0.is_empty() {
-            return 0usize;
+            return (0usize, 0usize);
         }
-        let v = o.0[o.1 % o.0.len()] as usize % 64;
+        let raw = o.0[o.1 % o.0.len()] as usize;
+        let k = o.1;
         o.1 += 1;
+        if raw >= 128 {
+            // residue mode: the input is a longer bit vector cut down with `truncate`, which leaves the cut-off
+            // bits in the last storage word (dead bits; a legal `IdpfInput::from(BitVec)`, equal to the clean input)
+            o.2 += 1;
+            return (0, 1 + (raw + k) % 61);
+        }
+        let v = raw % 64;
         if v != 0 {
             o.2 += 1;
         }
-        v
+        (v, 0)
     });
+    if residue > 0 {
+        use bitvec::prelude::*;
+        let mut bv: BitVec<usize, Lsb0> = BitVec::new();
+        for x in b {
+            bv.push(*x);
+        }
+        for i in 0..residue {
+            bv.push((i + residue) % 3 != 0);
+        }
+        bv.truncate(b.len());
+        return IdpfInput::from(bv);
+    }
     if off == 0 {
         return IdpfInput::from_bools(b);
     }
